@@ -97,6 +97,10 @@ func ValidatePreparedProof(
 		return false
 	}
 
+	if !pBlockRef.InstanceId().Equal(ppBlockRef.InstanceId()) {
+		return false
+	}
+
 	if !pBlockRef.View().Equal(ppView) {
 		return false
 	}
